@@ -4,6 +4,7 @@ CONSTANTS
   Configs = {}
   DoneSendBlocking = FALSE
   ExitStops = FALSE
+  FirstErrorOnly = FALSE
   TraceFile = "traces.ndjson"
 CONSTRAINT Track
 INVARIANTS TypeOK PrefixOrder OutputCorrect SuccessDeterministic FailDeterministic
